@@ -224,6 +224,16 @@ func selfTest() error {
 	return nil
 }
 
+func panics(f func()) (p bool) {
+	defer func() {
+		if recover() != nil {
+			p = true
+		}
+	}()
+	f()
+	return false
+}
+
 // blocking calls: run in a goroutine; "returned" within the budget, or cancelled and joined
 func callBlocking(expectReturn bool, f func(ctx context.Context) bool) (returned bool, value bool) {
 	ctx, cancel := context.WithCancel(context.Background())
@@ -279,7 +289,11 @@ func kindPool(w *rec.Writer, seed uint64) {
 		case 2:
 			rpDec(reps[arg])
 		case 3:
-			rpReport(reps[arg])
+			// Register after the ready channel was closed makes a later Report close it again
+			if panics(func() { rpReport(reps[arg]) }) {
+				res = 3
+				w.Stat("pool_report_panic_close_of_closed_ready", 1)
+			}
 		default: // Wait
 			waited = true
 			o := readPool(sp)
@@ -382,7 +396,10 @@ func kindGroup(w *rec.Writer, seed uint64) {
 			w.Stat("group_join", 1)
 		case 1, 2:
 			op = 1
-			mSignalReady(ms[arg])
+			if panics(func() { mSignalReady(ms[arg]) }) {
+				res = 3
+				w.Stat("group_signal_ready_panic_close_of_closed_ready", 1)
+			}
 		case 3, 4:
 			op = 2
 			mInc(ms[arg])
